@@ -14,7 +14,7 @@ PRE = '#include "au/math.hh"\n#include "au/units/meters.hh"\n#include "au/units/
 def obligations(tier, seed):
     obs = []
     M, S = 'au::Meters', 'au::Seconds'
-    for rep in ((G.INT_REPS + ['f32', 'f64']) if tier == 'thorough' else ('i32', 'i64', 'u32', 'f32', 'f64')):
+    for rep in ((G.INT_REPS + ['f32', 'f64']) if tier == 'thorough' else ('i32', 'i64', 'u32', 'i16', 'u8', 'f32', 'f64')):
         ct = G.ctype(rep); fp = G.is_fp(rep)
         P = G.promoted(rep) if not fp else rep; cp = G.ctype(P)
         bits = {'f32': 'vf_f32_bits', 'f64': 'vf_f64_bits'}.get(rep)
